@@ -129,8 +129,11 @@ class ModelModifier:
     # buffer offsets.
 
     # remove all the constant from the model.
+    # Zero-length constants stay embedded: a size of 0 is the flatbuffer default
+    # and would be dropped, which changes the length of the serialized model
+    # between the two passes below.
     for buffer in quantized_model.buffers:
-      if buffer.data is not None:
+      if buffer.data is not None and len(buffer.data) > 0:
         buffer.data = None
         buffer.offset = 1
         buffer.size = 1
@@ -142,7 +145,7 @@ class ModelModifier:
       dummy_bytearray += b'\0'
     for buffer_idx, buffer in enumerate(quantized_model.buffers):
       buffer_data = self._constant_map[buffer_idx]
-      if buffer_data is None:
+      if not buffer_data:
         continue
       buffer.offset = len(dummy_bytearray)
       buffer.size = len(buffer_data)
@@ -159,7 +162,7 @@ class ModelModifier:
       model_bytearray += b'\0'
     for buffer_idx, _ in enumerate(quantized_model.buffers):
       buffer_data = self._constant_map[buffer_idx]
-      if buffer_data is None:
+      if not buffer_data:
         continue
       model_bytearray += buffer_data
       while len(model_bytearray) % 16:
